@@ -368,6 +368,34 @@ void exclstride(const int N, const int *in, int *out) {
     n = 0; for (int t = 6; t >= 0; t -= 2) { out[k[n]] = e[n] - t; n++; }
   }
 }'''))
+    P.append(K('excl3d', '''
+@kernel void excl3d(const int N, const int *in, int *out) {
+  for (int o = 0; o < N; ++o; @outer) {
+    @exclusive int e;
+    for (int k = 0; k < 2; ++k; @inner) {
+      for (int j = 0; j < 2; ++j; @inner) {
+        for (int i = 0; i < 2; ++i; @inner) {
+          e = 2 * in[(k * 2 + j) * 2 + i] + o;
+        }
+      }
+    }
+    for (int k = 0; k < 2; ++k; @inner) {
+      for (int j = 0; j < 2; ++j; @inner) {
+        for (int i = 0; i < 2; ++i; @inner) {
+          out[(k * 2 + j) * 2 + i] = e + 1;
+        }
+      }
+    }
+  }
+}''', [('int', 'N', 0, 1)], [('int', 'in', A8, 'in'), ('int', 'out', A8, 'out')], feats='@exclusive carried between two three-level @inner nests', cap=3,
+             ref='''
+void excl3d(const int N, const int *in, int *out) {
+  for (int o = 0; o < N; ++o) {
+    int e[8];
+    for (int k = 0; k < 2; ++k) for (int j = 0; j < 2; ++j) for (int i = 0; i < 2; ++i) e[(k * 2 + j) * 2 + i] = 2 * in[(k * 2 + j) * 2 + i] + o;
+    for (int k = 0; k < 2; ++k) for (int j = 0; j < 2; ++j) for (int i = 0; i < 2; ++i) out[(k * 2 + j) * 2 + i] = e[(k * 2 + j) * 2 + i] + 1;
+  }
+}'''))
     return P
 
 
